@@ -4,7 +4,7 @@
 NOT part of the verification framework.  It records, as exact string replacements, the minimal
 source changes that were tried on a scratch copy of Microsoft/Recognizers-Text during the design
 phase (with all of them applied, together with regenerated resources, the repository's own spec
-suite passes: 14914 passed, 0 failed).  Each FIX entry is meant to become ONE separate commit in
+suite passes: 14914 passed, 0 failed, F1-F12 together).  Each FIX entry is meant to become ONE separate commit in
 /repo whose message starts with "fix:".
 
 usage:  planned_fixes.py <path-to-Python/libraries> [F2 F3 ...]
@@ -118,6 +118,38 @@ FIXES = {
          "            return result\n"
          "\n"
          "        return []\n"),
+    ],
+    # C04: a number phrase that starts with a bare round word ("mille cent" = 1100, "millecento", "duizend
+    # honderd") was multiplied instead of added (-> 100000), and a bare hundred after a thousand group was
+    # dropped ("cinq mille cent cinquante" -> 5050): the end-word scan skipped index 0 and an empty
+    # multiplier slice evaluated to 0 instead of 1
+    'F11': [
+        ('recognizers-number/recognizers_number/number/parsers.py',
+         "        for i in range(len(matches) - 1, 0, -1):\n",
+         "        for i in range(len(matches) - 1, -1, -1):\n"),
+        ('recognizers-number/recognizers_number/number/parsers.py',
+         "                    if i != 0:\n"
+         "                        part_value = self.__get_int_value(\n"
+         "                            matches[last_index:i])\n",
+         "                    if i != last_index:\n"
+         "                        part_value = self.__get_int_value(\n"
+         "                            matches[last_index:i])\n"),
+    ],
+    # C03: '-516,292' resolved to -516.292 while '516,292' resolves to 516292 (en-us, es-es, fr-fr): the
+    # leading sign was counted as a digit position by the single-separator heuristic
+    'F12': [
+        ('recognizers-number/recognizers_number/number/parsers.py',
+         "        call_stack: List[Decimal] = list()\n"
+         "\n"
+         "        for i, c in enumerate(digits_str):\n",
+         "        call_stack: List[Decimal] = list()\n"
+         "        # a leading sign must not count as a digit position\n"
+         "        sign_offset = 1 if digits_str.startswith('-') else 0\n"
+         "\n"
+         "        for i, c in enumerate(digits_str):\n"),
+        ('recognizers-number/recognizers_number/number/parsers.py',
+         "                c, str_length - i, i, has_single_separator, prev_char, non_decimal_separator)\n",
+         "                c, str_length - i, i - sign_offset, has_single_separator, prev_char, non_decimal_separator)\n"),
     ],
 }
 # F1 (C18/C19) is not a text replacement: run the repository's own resource generator
